@@ -14,7 +14,12 @@ import (
 	"golang.org/x/tools/go/ssa"
 )
 
-func init() { register("C18", propC18) }
+func init() {
+	register("C18", func(w *World, r *Report, tier string) {
+		propC18(w, r, tier)
+		importStateless(w, r, tier, []string{"uePolicyContainer/"}, "UE policy codec")
+	})
+}
 
 func uePolEntries(w *World, r *Report) []entrySpec {
 	p := w.Pkg("uePolicyContainer")
@@ -267,6 +272,10 @@ func checkUePolShapes(w *World, r *Report) {
 		{{{0}}, {{1}, {1}}, {{2, 2}}},
 		{{}, {{4}}},
 		{{{1, 1, 1}}, {}},
+		// instructions without a UE policy part (a bare instruction is a complete one: length 2, UPSC)
+		{{{}}},
+		{{{1}, {}}},
+		{{{}, {2}}, {{}}},
 	}
 	u16 := func(it *Interp, v int) []BV { return []BV{it.constBV(uint64(v>>8), 8), it.constBV(uint64(v&0xff), 8)} }
 	for _, shape := range shapes {
@@ -424,5 +433,5 @@ func checkUePolShapes(w *World, r *Report) {
 			r.Fail("walk.uepol", fname, what, f.Pos(), "the parser does not return the structure laid out in the input: "+why, nil)
 		}
 	}
-	r.Expect("walk.uepol", 6)
+	r.Expect("walk.uepol", 9)
 }
